@@ -424,7 +424,7 @@ fn templates(derive: &str) -> &'static [&'static str] {
         ],
         "Debug" => &["(skip)", "(ignore)", "(\"{}\", _0)", "(\"{a:?}\")", "(bound(T: Clone))", "(bounds(T: core::fmt::Debug))", "(\"{}\", a.len())", "(fmt = \"{}\", _0)", "(bound = \"T: Clone\")"],
         "From" => &["", "(forward)", "(skip)", "(ignore)", "(i32, u8)", "((i32, u8))", "(&'a str, String)", "(types(i32))", "(types(1))", "(types(\"i32\"))", "(types(i32, u8), forward)"],
-        "Into" => &["", "(owned)", "(ref)", "(ref_mut)", "(owned, ref(i32), ref_mut)", "(i32, i64)", "(skip)", "(ignore)", "(owned(i64), ref)", "(types(i32))", "(owned(types(i32)))", "(owned, types(i32, i64))", "(repr(u8))"],
+        "Into" => &["", "(owned)", "(ref)", "(ref_mut)", "(owned, ref(i32), ref_mut)", "(i32, i64)", "(skip)", "(ignore)", "(owned(i64), ref)", "(owned(i64,), ref)", "(owned(i64), owned, ref_mut)", "(owned(i64,), ref(i32,),)", "(i32, i64,)", "(owned(i64) ref)", "(types(i32))", "(owned(types(i32)))", "(owned, types(i32, i64))", "(repr(u8))"],
         "AsRef" | "AsMut" => &["", "(forward)", "(skip)", "(ignore)", "(i32)", "(str, [u8])", "(T)"],
         "TryFrom" => &["(repr)"],
         "Error" => &["(source)", "(backtrace)", "(not(source))", "(not(backtrace))", "(ignore)", "(source, backtrace)", "(not(source), backtrace)"],
